@@ -1,7 +1,8 @@
 /-
   Proofs/SolverCompleteInvLoc.lean — `inverse_circuit` on a tableau whose first `np` columns are *literal* (absorbed photons:
   one generator is exactly `+Z_q`, every other generator is trivial at `q`) only emits gates that the replay of the
-  time-reversed solver accepts: `H` / `P` / `X` anywhere, `CNOT` / `CZ` only between columns `≥ np`.
+  time-reversed solver accepts: `H` / `P` / `X` anywhere, `CNOT` / `CZ` only between columns `≥ np`.  In fact
+  (`inverseCircuit_gates_on_emitters`) no gate at all is emitted on a column `< np`.
 
   Method: a location invariant.  During block 1 (column `j`) every photon column is literal and the literal rows of the
   columns `< j` sit on the diagonal; from then on (blocks 2 to 7) row `q` is `+Z_q` for every `q < np`.  Every row product the
@@ -18,6 +19,9 @@ def Gate.okFor (np : Nat) : Gate → Prop
   | .H _ | .P _ | .X _ => True
   | .CNOT c t | .CZ c t => np ≤ c ∧ np ≤ t
   | _ => False
+
+/-- every column a gate acts on is an emitter column -/
+def Gate.onEmitters (np : Nat) (g : Gate) : Prop := ∀ c, c ∈ g.cols → np ≤ c
 
 /-! ### literal columns, with the index of the literal row -/
 
@@ -360,10 +364,10 @@ theorem b1_keeps (np n j : Nat) (r r' : Nat → PRow) (hnp : np ≤ n)
   obtain ⟨i, hi, hiq⟩ := h q hq
   exact ⟨i, hk q i (by omega) hi, hiq⟩
 
-/-- one column of block 1 -/
-theorem step1_lit (np n j : Nat) (st st' : InvState) (hn : st.t.n = n) (hnp : np ≤ n) (hj : j < n)
+/-- one column of block 1; the only gate it can emit is `H j`, and only on an emitter column -/
+theorem step1_emit (np n j : Nat) (st st' : InvState) (hn : st.t.n = n) (hnp : np ≤ n) (hj : j < n)
     (hB : B1 np n j st.t.row) (hs : invStep1 n st j = .ok st') :
-    st'.t.n = n ∧ B1 np n (j + 1) st'.t.row ∧ (∀ g, g ∈ st'.circ → g ∈ st.circ ∨ g = .H j) := by
+    st'.t.n = n ∧ B1 np n (j + 1) st'.t.row ∧ (∀ g, g ∈ st'.circ → g ∈ st.circ ∨ (g = .H j ∧ np ≤ j)) := by
   unfold invStep1 at hs
   generalize hft : st.t.pauliTypeFinder j j = ft at hs
   obtain ⟨xs, ys, zs⟩ := ft
@@ -465,15 +469,29 @@ theorem step1_lit (np n j : Nat) (st st' : InvState) (hn : st.t.n = n) (hnp : np
               rcases hg with hg | hg
               · rw [k2] at hg
                 exact Or.inl hg
-              · exact Or.inr hg
+              · exact Or.inr ⟨hg, hjnp⟩
           · injection hs with hs
             subst hs
             exact ⟨k1, hB2, fun g hg => Or.inl (by rw [k2] at hg; exact hg)⟩
 
-theorem block1_lit (np n : Nat) (hnp : np ≤ n) (m j : Nat) (hjm : j + m = n) (st st' : InvState) (hn : st.t.n = n)
-    (hB : B1 np n j st.t.row) (hok : ∀ g, g ∈ st.circ → Gate.okFor np g)
+/-- one column of block 1 -/
+theorem step1_lit (np n j : Nat) (st st' : InvState) (hn : st.t.n = n) (hnp : np ≤ n) (hj : j < n)
+    (hB : B1 np n j st.t.row) (hs : invStep1 n st j = .ok st') :
+    st'.t.n = n ∧ B1 np n (j + 1) st'.t.row ∧ (∀ g, g ∈ st'.circ → g ∈ st.circ ∨ g = .H j) := by
+  obtain ⟨a1, a2, a3⟩ := step1_emit np n j st st' hn hnp hj hB hs
+  exact ⟨a1, a2, fun g hg => (a3 g hg).imp id And.left⟩
+
+theorem onEmitters_H (np j : Nat) (h : np ≤ j) : Gate.onEmitters np (.H j) := by
+  intro c hc
+  simp only [Gate.cols, List.mem_singleton] at hc
+  omega
+
+/-- block 1, for any gate predicate that holds of `H j` on emitter columns `j` -/
+theorem block1_gen (P : Gate → Prop) (np n : Nat) (hP : ∀ j, np ≤ j → P (.H j)) (hnp : np ≤ n) (m j : Nat) (hjm : j + m = n)
+    (st st' : InvState) (hn : st.t.n = n)
+    (hB : B1 np n j st.t.row) (hok : ∀ g, g ∈ st.circ → P g)
     (hs : (List.range' j m).foldlM (invStep1 n) st = .ok st') :
-    st'.t.n = n ∧ B1 np n n st'.t.row ∧ ∀ g, g ∈ st'.circ → Gate.okFor np g := by
+    st'.t.n = n ∧ B1 np n n st'.t.row ∧ ∀ g, g ∈ st'.circ → P g := by
   induction m generalizing j st with
   | zero =>
     simp only [List.range', List.foldlM_nil] at hs
@@ -489,13 +507,33 @@ theorem block1_lit (np n : Nat) (hnp : np ≤ n) (m j : Nat) (hjm : j + m = n) (
     | error e => rw [h1] at hs; cases hs
     | ok s1 =>
       rw [h1] at hs
-      obtain ⟨a1, a2, a3⟩ := step1_lit np n j st s1 hn hnp (by omega) hB h1
+      obtain ⟨a1, a2, a3⟩ := step1_emit np n j st s1 hn hnp (by omega) hB h1
       refine ih (j + 1) (by omega) s1 a1 a2 ?_ hs
       intro g hg
       rcases a3 g hg with hg' | hg'
       · exact hok g hg'
-      · rw [hg']
-        exact True.intro
+      · rw [hg'.1]
+        exact hP j hg'.2
+
+theorem block1_lit (np n : Nat) (hnp : np ≤ n) (m j : Nat) (hjm : j + m = n) (st st' : InvState) (hn : st.t.n = n)
+    (hB : B1 np n j st.t.row) (hok : ∀ g, g ∈ st.circ → Gate.okFor np g)
+    (hs : (List.range' j m).foldlM (invStep1 n) st = .ok st') :
+    st'.t.n = n ∧ B1 np n n st'.t.row ∧ ∀ g, g ∈ st'.circ → Gate.okFor np g :=
+  block1_gen (Gate.okFor np) np n (fun _ _ => True.intro) hnp m j hjm st st' hn hB hok hs
+
+/-- block 1 emits gates on emitter columns only -/
+theorem invBlock1_emit (t0 : STab) (np : Nat) (hnp : np ≤ t0.n) (hlit : ∀ q, q < np → t0.Lit q) (s1 : InvState)
+    (h : invBlock1 t0 = .ok s1) :
+    s1.t.n = t0.n ∧ B1 np t0.n t0.n s1.t.row ∧ ∀ g, g ∈ s1.circ → Gate.okFor np g ∧ Gate.onEmitters np g := by
+  unfold invBlock1 at h
+  rw [List.range_eq_range'] at h
+  refine block1_gen (fun g => Gate.okFor np g ∧ Gate.onEmitters np g) np t0.n
+    (fun j hj => ⟨True.intro, onEmitters_H np j hj⟩) hnp t0.n 0 (by omega) { t := t0, circ := [] } s1 rfl ?_ ?_ h
+  · intro q hq
+    obtain ⟨i, hi⟩ := hlit q hq
+    exact ⟨i, hi, fun h0 => absurd h0 (Nat.not_lt_zero _)⟩
+  · intro g hg
+    cases hg
 
 theorem invBlock1_lit (t0 : STab) (np : Nat) (hnp : np ≤ t0.n) (hlit : ∀ q, q < np → t0.Lit q) (s1 : InvState)
     (h : invBlock1 t0 = .ok s1) :
@@ -516,10 +554,11 @@ structure RInv (np n : Nat) (st : InvState) : Prop where
   n_eq : st.t.n = n
   lit : ∀ q, q < np → LitAt n st.t.row q q
   ok : ∀ g, g ∈ st.circ → Gate.okFor np g
+  em : ∀ g, g ∈ st.circ → Gate.onEmitters np g
 
 theorem RInv.gate {np n : Nat} {st : InvState} (h : RInv np n st) (hnp : np ≤ n) (g : Gate) (hwf : g.WF n)
     (hok0 : Gate.okFor 0 g) (hok : Gate.okFor np g) (hc : ∀ c, c ∈ g.cols → np ≤ c) : RInv np n (st.gate g) := by
-  refine ⟨h.n_eq, fun q hq => ?_, fun g' hg' => ?_⟩
+  refine ⟨h.n_eq, fun q hq => ?_, fun g' hg' => ?_, fun g' hg' => ?_⟩
   · refine litAt_gate st g n q q h.n_eq (by omega) hwf hok0 (fun hm => ?_) (h.lit q hq)
     have := hc q hm
     omega
@@ -528,10 +567,15 @@ theorem RInv.gate {np n : Nat} {st : InvState} (h : RInv np n st) (hnp : np ≤ 
     · exact h.ok g' hg'
     · rw [hg']
       exact hok
+  · simp only [InvState.gate, List.mem_append, List.mem_singleton] at hg'
+    rcases hg' with hg' | hg'
+    · exact h.em g' hg'
+    · rw [hg']
+      exact hc
 
 theorem RInv.rsum {np n : Nat} {st : InvState} (h : RInv np n st) (a b : Nat) (ha : a < n)
     (hpa : np ≤ a) (hpb : np ≤ b) : RInv np n (st.rsum a b) :=
-  ⟨h.n_eq, fun q hq => litAt_rsum st a b n q q h.n_eq (by omega) ha (by omega) (by omega) (h.lit q hq), h.ok⟩
+  ⟨h.n_eq, fun q hq => litAt_rsum st a b n q q h.n_eq (by omega) ha (by omega) (by omega) (h.lit q hq), h.ok, h.em⟩
 
 theorem rinv_step2 (np n : Nat) (hnp : np ≤ n) (st : InvState) (jk : Nat × Nat) (h : RInv np n st) (hm : jk ∈ pairsLt n) :
     RInv np n (invStep2 st jk) := by
@@ -653,26 +697,37 @@ theorem invRest_lit (np n : Nat) (hnp : np ≤ n) (s1 : InvState) (h1 : RInv np 
 
 /-- on a tableau whose photon columns are literal, the blocks of `inverse_circuit` emit only gates the solver's replay
     accepts, and the photon columns are still literal at the end -/
-theorem invBlocks_gates_ok (t0 : STab) (np : Nat) (hnp : np ≤ t0.n) (hg : t0.Good)
-    (hlit : ∀ q, q < np → t0.Lit q) (s : InvState) (h : invBlocks t0 = .ok s) :
-    (∀ g, g ∈ s.circ → Gate.okFor np g) ∧ (∀ q, q < np → s.t.Lit q) := by
-  have _ := hg
+theorem invBlocks_rinv (t0 : STab) (np : Nat) (hnp : np ≤ t0.n)
+    (hlit : ∀ q, q < np → t0.Lit q) (s : InvState) (h : invBlocks t0 = .ok s) : RInv np t0.n s := by
   unfold invBlocks at h
   split at h
   · cases h
   · next s1 h1 =>
     injection h with h
     subst h
-    obtain ⟨a1, a2, a3⟩ := invBlock1_lit t0 np hnp hlit s1 h1
+    obtain ⟨a1, a2, a3⟩ := invBlock1_emit t0 np hnp hlit s1 h1
     have r1 : RInv np t0.n s1 := by
-      refine ⟨a1, fun q hq => ?_, a3⟩
+      refine ⟨a1, fun q hq => ?_, fun g hg => (a3 g hg).1, fun g hg => (a3 g hg).2⟩
       obtain ⟨i, hi, hiq⟩ := a2 q hq
       rw [hiq (by omega)] at hi
       exact hi
-    have r := invRest_lit np t0.n hnp s1 r1
-    refine ⟨r.ok, fun q hq => ?_⟩
-    rw [lit_iff, r.n_eq]
-    exact ⟨q, r.lit q hq⟩
+    exact invRest_lit np t0.n hnp s1 r1
+
+theorem invBlocks_gates_ok (t0 : STab) (np : Nat) (hnp : np ≤ t0.n) (hg : t0.Good)
+    (hlit : ∀ q, q < np → t0.Lit q) (s : InvState) (h : invBlocks t0 = .ok s) :
+    (∀ g, g ∈ s.circ → Gate.okFor np g) ∧ (∀ q, q < np → s.t.Lit q) := by
+  have _ := hg
+  have r := invBlocks_rinv t0 np hnp hlit s h
+  refine ⟨r.ok, fun q hq => ?_⟩
+  rw [lit_iff, r.n_eq]
+  exact ⟨q, r.lit q hq⟩
+
+/-- on a tableau whose photon columns are literal, the blocks of `inverse_circuit` emit no gate at all on a photon column -/
+theorem invBlocks_gates_on_emitters (t0 : STab) (np : Nat) (hnp : np ≤ t0.n) (hg : t0.Good)
+    (hlit : ∀ q, q < np → t0.Lit q) (s : InvState) (h : invBlocks t0 = .ok s) :
+    ∀ g, g ∈ s.circ → Gate.onEmitters np g := by
+  have _ := hg
+  exact (invBlocks_rinv t0 np hnp hlit s h).em
 
 /-- **`inverse_circuit` on a tableau with literal photon columns returns a gate list the solver's replay accepts**
     (`hcanon`: `canonical_form` keeps literal columns literal) -/
@@ -686,6 +741,19 @@ theorem inverseCircuit_gates_ok (t t' : STab) (circ : List Gate) (np : Nat) (hnp
   have hlit0 : ∀ q, q < np → t0.Lit q := fun q hq => hcanon t t0 q (by omega) (hlit q hq) hc
   rw [← e2]
   exact (invBlocks_gates_ok t0 np (by omega) g0 hlit0 s hs).1
+
+/-- **`inverse_circuit` on a tableau with literal photon columns only emits gates on emitter columns**: every column a
+    returned gate acts on is `≥ np` (`hcanon`: `canonical_form` keeps literal columns literal) -/
+theorem inverseCircuit_gates_on_emitters (t t' : STab) (circ : List Gate) (np : Nat) (hnp : np ≤ t.n) (hg : t.Good)
+    (hcanon : ∀ (u u' : STab) (q : Nat), q < u.n → u.Lit q → u.canonicalForm = .ok u' → u'.Lit q)
+    (hlit : ∀ q, q < np → t.Lit q) (h : t.inverseCircuit = .ok (t', circ)) :
+    ∀ g, g ∈ circ → Gate.onEmitters np g := by
+  obtain ⟨t0, s, hc, hs, _, e2⟩ := inverseCircuit_eq t t' circ h
+  obtain ⟨sc, g0⟩ := canonicalForm_spanEq t t0 hg hc
+  have hn : t.n = t0.n := sc.n_eq
+  have hlit0 : ∀ q, q < np → t0.Lit q := fun q hq => hcanon t t0 q (by omega) (hlit q hq) hc
+  rw [← e2]
+  exact invBlocks_gates_on_emitters t0 np (by omega) g0 hlit0 s hs
 
 end STab
 end Graphiq
